@@ -14,12 +14,28 @@ def num(text):
     text = text.replace("_", "").strip()
     return int(eval(text, {"__builtins__": {}}, {}))
 
+def resolve(token, path):
+    """a literal, or the name of a `const NAME: T = <literal>;` in the same file / the crate's lib.rs"""
+    token = token.strip()
+    if re.fullmatch(r"[0-9_]+", token):
+        return num(token)
+    if re.fullmatch(r"[A-Z][A-Z0-9_]*", token):
+        crate = path.split("/")[0]
+        for f in (path, crate + "/src/lib.rs"):
+            try:
+                m = re.search(r"const\s+" + token + r"\s*:\s*\w+\s*=\s*([0-9_]+)\s*;", src(f))
+            except OSError:
+                continue
+            if m:
+                return num(m.group(1))
+    raise ValueError(f"cannot resolve {token!r}")
+
 SPECS = [
     # name, file, regex (group 1 = Rust integer expression), note
     ("SLICE_SIZE", "renet/src/packet.rs", r"pub const SLICE_SIZE: usize = ([0-9_]+);"),
-    ("SER_BUFFER", "renet/src/remote_connection.rs", r"let mut buffer = \[0u8; ([0-9_]+)\];"),
-    ("ACK_RANGE_CAP", "renet/src/remote_connection.rs", r"if self\.pending_acks\.len\(\) > ([0-9_]+) \{"),
-    ("MAX_NUM_SLICES", "renet/src/packet.rs", r"num_slices > ([0-9_]+) \{"),
+    ("SER_BUFFER", "renet/src/remote_connection.rs", r"let mut \w+ = \[0u8; ([0-9_]+|[A-Z][A-Z0-9_]*)\];"),
+    ("ACK_RANGE_CAP", "renet/src/remote_connection.rs", r"if self\.pending_acks\.len\(\) > ([0-9_]+|[A-Z][A-Z0-9_]*) \{"),
+    ("MAX_NUM_SLICES", "renet/src/packet.rs", r"num_slices > ([0-9_]+|[A-Z][A-Z0-9_]*) \{"),
     ("DISCARD_AFTER_NS", "renet/src/remote_connection.rs", r"const DISCARD_AFTER: Duration = Duration::from_secs\(([0-9_]+)\);", 10**9),
     ("DISCARD_FRAGMENT_AFTER_NS", "renet/src/channel/unreliable.rs", r"const DISCARD_AFTER: Duration = Duration::from_secs\(([0-9_]+)\);", 10**9),
     ("NETCODE_MAX_CLIENTS", "renetcode/src/lib.rs", r"const NETCODE_MAX_CLIENTS: usize = ([0-9_]+);"),
@@ -66,7 +82,10 @@ def main():
             if vals[name] is None:
                 errors.append(f"{name}: symbolic value {m[0]} unknown")
         else:
-            vals[name] = num(m[0]) * mult
+            try:
+                vals[name] = resolve(m[0], path) * mult
+            except ValueError as e:
+                errors.append(f"{name}: {e}")
     if errors:
         for e in errors:
             print("CONST-ERROR " + e)
